@@ -91,7 +91,7 @@ def rules_case(draw):
         else:
             rf = dict(rf, transforms=list(rf['transforms']) + [[draw(st.sampled_from(['description', 'memo'])), w]])
     rf = dict(rf, rules=rs)
-    return {'kind': 'rules', 'rf': rf, 'txns': draw(st.lists(R.txn_for(rf), min_size=2, max_size=4)), 'rows': draw(lang.rows_case)}
+    return {'kind': 'rules', 'rf': rf, 'txns': draw(R.txn_list(rf)), 'rows': draw(lang.rows_opt)}
 
 
 def err_class(msg):
